@@ -722,6 +722,13 @@ def c02(tier):
             return set()
         if "nc_d-400.20a" in S and "nc_d-400.20b" in S:
             S["nc_d-400.20a_plus_20b"] = S["nc_d-400.20a"] + S["nc_d-400.20b"]      # the two halves of "N.C. income tax withheld"
+        for gname in ("1040.other_federal_withholding", "1040.estimated_tax_payments"):
+            # answers that a line copies or adds: made visible to the rules as pseudo-lines "in:<input>"
+            try:
+                if gname in sc.get("given", {}):
+                    S["1040.in:" + gname.split(".", 1)[1]] = int((Decimal(sc["given"][gname]) * 100).to_integral_value())
+            except Exception:      # noqa  (an answer that is not a number: no pseudo-line)
+                pass
         if "1040.4a" in S and "1040.4b" in S:
             S["1040.4a_plus_4b"] = S["1040.4a"] + S["1040.4b"]      # total and taxable part of the IRA distributions: see the "ira4" rule
         absent = set()
@@ -769,6 +776,20 @@ def c02(tier):
                     args += sorted(n for n in S if n.split(".")[0].split(":")[0] == "8606" and n.split(".", 1)[1] == "taxable_amount")
                     op = "add"
                     if not args:
+                        continue
+                if op == "pens5":
+                    # the named box of every Form 1099-R copy WITHOUT the IRA/SEP/SIMPLE box checked
+                    args = sorted("%s.%s" % (n.split(".")[0], e["box"]) for n in values if n.split(".")[0].split(":")[0] == "1099-r" and
+                                  n.split(".", 1)[1] == "box_7_ira_sep_simple" and values[n].strip().lower() in ("false", "no", "0") and
+                                  "%s.%s" % (n.split(".")[0], e["box"]) in S)
+                    op = "add"
+                    if not args:
+                        continue
+                if op == "addopt":
+                    # the sum of those of the named lines that exist in this solution (a form that takes no part adds nothing)
+                    args = [a for a in args if a in S]
+                    op = "add"
+                    if not args or full(e["need"]) not in S:
                         continue
                 if op == "addprefix":
                     args = sorted(n for n in S if n.startswith("%s.%s" % (finst, e["prefix"])))
